@@ -38,6 +38,23 @@ def handleC16 (op : String) (input impl : Json) : Except String Json := do
       (if nb == blockRows.length then [] else ["no-block-lost-or-duplicated"])
     let agree := p.finished && mrows == rows && mblocks.length == nb
     return reply mj agree viol
+  | "merge" =>
+    -- diff / merge pipelines under an unreadable object: must terminate, never panic; without a
+    -- fault the outcome is the one-processor outcome
+    let mj := Json.mkObj [("terminates", Json.bool true)]
+    if resClass impl == "panic" then return reply mj false ["no-panic"]
+    if resClass impl != "ok" then return reply mj false ["harness-setup-failed"]
+    let v := fldD impl "val" Json.null
+    let outcome := (fldD v "outcome" Json.null).getStr?.toOption.getD ""
+    let refOutcome := (fldD v "refOutcome" Json.null).getStr?.toOption.getD ""
+    let fault := (fldD input "fault" Json.null).getStr?.toOption.getD ""
+    let viol :=
+      (if outcome == "hang" || refOutcome == "hang" then ["always-terminates"] else []) ++
+      (if refOutcome != "done" && refOutcome != "hang" then ["unexpected-error"] else []) ++
+      (if fault == "none" && (outcome != refOutcome ||
+          (fldD v "conflicts" Json.null).compress != (fldD v "refConflicts" Json.null).compress)
+        then ["same-outcome-as-single-threaded-run"] else [])
+    return reply mj (outcome != "hang") viol
   | _ => throw s!"unknown op {op}"
 
 end Wrgl.Drv
